@@ -417,7 +417,13 @@ void dialect::doHOLA(Graph &G, const HolaOpts &holaOpts, Logger *logger) {
     // Remove part of the node padding now, to ensure open channels for connector routing.
     double nodePaddingLayer1 = 2*preRoutingGapIELScalar*nodePadding;
     double nodePaddingLayer2 = nodePadding - nodePaddingLayer1;
-    core->padAllNodes(-nodePaddingLayer1, -nodePaddingLayer1);
+    // Only the nodes of the given graph were padded: the bend nodes that the
+    // Chains added to the core must keep their (small) size.
+    for (auto p : core->getNodeLookup()) {
+        if (G.hasNode(p.first)) {
+            p.second->addPadding(-nodePaddingLayer1, -nodePaddingLayer1);
+        }
+    }
     
     core->addBendlessSubnetworkToRoutingAdapter(ra);
     // Ask each Tree to add its network to the router.
